@@ -217,6 +217,28 @@ func stressTimeout(seed int64, scale int) int {
 			v.add("k timeouts took less than k limits")
 		}
 	}
+	// the limit is the Timeout's own: an executor context whose deadline passes earlier does not make the Timeout fire. The function
+	// ignores the cancellation of its context for a while and then returns its result, well inside the Timeout's limit.
+	for i := 0; i < 10*scale; i++ {
+		var listener atomic.Int32
+		to := timeout.Builder[int](200 * time.Millisecond).OnTimeoutExceeded(func(failsafe.ExecutionDoneEvent[int]) { listener.Add(1) }).Build()
+		ctx, cancel := context.WithTimeout(context.Background(), time.Millisecond)
+		t0 := time.Now()
+		val, err := failsafe.NewExecutor[int](to).WithContext(ctx).GetWithExecution(func(e failsafe.Execution[int]) (int, error) {
+			time.Sleep(3 * time.Millisecond) // winds down after its context's deadline
+			return 42, nil
+		})
+		el := time.Since(t0)
+		cancel()
+		time.Sleep(300 * time.Microsecond)
+		runs++
+		v.count("context-deadline-before-limit")
+		if errors.Is(err, timeout.ErrExceeded) || listener.Load() != 0 {
+			v.add(fmt.Sprintf("a Timeout of 200 ms fired after %v (listener calls %d, err %v): its executor context had a 1 ms deadline", el, listener.Load(), err))
+		} else if err != nil || val != 42 {
+			v.add(fmt.Sprintf("Timeout that did not fire did not return the inner result: (%d, %v)", val, err))
+		}
+	}
 	return v.report("timeout", runs)
 }
 
@@ -561,7 +583,7 @@ func stressBreaker(seed int64, scale int) int {
 			cb2 := b2.Build()
 			cb2.RecordFailure()
 			clk.Add(60)
-			how := rng.Intn(4)
+			how := rng.Intn(6)
 			stubborn := func(e failsafe.Execution[int]) (int, error) { <-e.Canceled(); return 0, errX }
 			var err error
 			switch how {
@@ -581,6 +603,14 @@ func stressBreaker(seed int64, scale int) int {
 				ctx, cancel := context.WithTimeout(context.Background(), 150*time.Microsecond)
 				_, err = failsafe.NewExecutor[int](cb2).WithContext(ctx).GetWithExecution(stubborn)
 				cancel()
+			case 4: // the execution is cancelled already when it is admitted (a context that is done before the call)
+				ctx, cancel := context.WithCancel(context.Background())
+				cancel()
+				_, err = failsafe.NewExecutor[int](cb2).WithContext(ctx).GetWithExecution(stubborn)
+			case 5: // the same under a retry policy: admitted once, then the cancellation ends the execution
+				ctx, cancel := context.WithCancel(context.Background())
+				cancel()
+				_, err = failsafe.NewExecutor[int](retrypolicy.Builder[int]().WithMaxRetries(2).Build(), cb2).WithContext(ctx).GetWithExecution(stubborn)
 			}
 			_ = err
 			v.count(fmt.Sprintf("cut-short-trial/%d", how))
